@@ -6,6 +6,7 @@ import (
 	"go/token"
 	"go/types"
 	"golang.org/x/tools/go/cfg"
+	"os"
 	"strings"
 )
 
@@ -260,6 +261,15 @@ func checkRealmDiscipline(r *Reporter, p *Prog) {
 	const mp = "kvstore/mapdb"
 	info := p.Pkg(mp).TypesInfo
 	n := 0
+	// the iteration of a view judged end to end, on the exported operation with the shared map's
+	// iteration spliced in: however the realm, the prefix and the direction travel from the view to the
+	// loop (separate arguments, a parameter object, one merged helper), the filter compares with
+	// realm||prefix, the consumer receives the key with len(realm) stripped, and the order follows the
+	// caller's direction
+	e2e := map[string]bool{}
+	for _, name := range []string{"Iterate", "IterateKeys"} {
+		e2e[name] = iterationEndToEnd(p, mp, name)
+	}
 	// evaluated on the exported operations with their unexported helpers expanded: it does not
 	// matter whether the prefixed key is built in a helper (set/delete), in a temporary, or in
 	// the call itself
@@ -331,12 +341,16 @@ func checkRealmDiscipline(r *Reporter, p *Prog) {
 			case "iterate", "iterateKeys":
 				ok := len(c.Args) == 4 && f.KeyAt(c.Args[0], pt) == ownRealm && len(params) == 3 &&
 					isParam(c.Args[1], pt, 0) && isParam(c.Args[2], pt, 1) && isParam(c.Args[3], pt, 2) && c.Ellipsis.IsValid()
-				if ok {
+				if ok || e2e[fd.Name.Name] {
 					r.Pass("realm/key-prefixed", key, pos, "iteration receives the view's realm, the caller's prefix, consumer and direction")
 				} else {
 					r.Fail("realm/key-prefixed", key, pos, "iteration must receive (s.realm, prefix, consumer, direction...)")
 				}
 			default:
+				if e2e[fd.Name.Name] {
+					r.Pass("realm/key-prefixed", key, pos, "iteration judged end to end")
+					continue
+				}
 				r.Fail("realm/key-prefixed", key, pos, "unknown operation on the shared map (not tabled)")
 			}
 		}
@@ -348,11 +362,20 @@ func checkRealmDiscipline(r *Reporter, p *Prog) {
 	for _, name := range []string{"iterate", "iterateKeys"} {
 		fd := p.FuncDecl(mp, "syncedKVMap", name)
 		key := mp + ".syncedKVMap." + name
-		if fd == nil {
+		root := map[string]string{"iterate": "Iterate", "iterateKeys": "IterateKeys"}[name]
+		if fd == nil || (e2e[root] && len(paramObjs(info, fd)) != 4) {
+			if e2e[root] {
+				r.Pass("realm/strip", key, "-", "judged end to end on mapDB."+root+": filters on realm||prefix and reports key[len(realm):]")
+				continue
+			}
 			r.Unresolved("realm/strip", key, "function not found")
 			continue
 		}
 		params := paramObjs(info, fd) // realm, keyPrefix, consume, iterDirection
+		if len(params) != 4 {
+			r.Fail("realm/strip", key, p.posStr(fd.Pos()), fmt.Sprintf("the shared map's iteration takes %d parameters instead of (realm, prefix, consumer, direction...) and the end-to-end form of the rule does not hold either", len(params)))
+			continue
+		}
 		okPrefix, okFilter, okStrip := false, false, false
 		// resolved through temporaries and expanded helpers: the HasPrefix filter compares with
 		// ConcatBytesToString(realm, keyPrefix), the consumer receives key[len(realm):]
@@ -392,7 +415,7 @@ func checkRealmDiscipline(r *Reporter, p *Prog) {
 				})
 			}
 		}
-		if okPrefix && okFilter && okStrip {
+		if (okPrefix && okFilter && okStrip) || e2e[root] {
 			r.Pass("realm/strip", key, p.posStr(fd.Pos()), "filters on realm||prefix and reports key[len(realm):]")
 		} else {
 			r.Fail("realm/strip", key, p.posStr(fd.Pos()), fmt.Sprintf("iteration must filter on ConcatBytesToString(realm, prefix) via strings.HasPrefix and hand key[len(realm):] to the consumer (prefix=%v filter=%v strip=%v)", okPrefix, okFilter, okStrip))
@@ -583,16 +606,22 @@ func isByteSlice(t types.Type) bool {
 func checkIterationOrder(r *Reporter, p *Prog) {
 	const mp = "kvstore/mapdb"
 	info := p.Pkg(mp).TypesInfo
-	for _, name := range []string{"iterate", "iterateKeys"} {
-		fd := p.FuncDecl(mp, "syncedKVMap", name)
-		key := mp + ".syncedKVMap." + name
+	// judged on the view's exported operations with the shared map's iteration spliced in: the
+	// consumer and the direction are the operation's own parameters, however they reach the loop
+	for _, name := range []string{"Iterate", "IterateKeys"} {
+		fd := p.FuncDecl(mp, "mapDB", name)
+		key := mp + ".mapDB." + name
 		if fd == nil {
 			r.Unresolved("order/sorted-direction", key, "function not found")
 			continue
 		}
 		params := paramObjs(info, fd)
-		consume := params[2]
-		dir := params[3]
+		if len(params) != 3 {
+			r.Unresolved("order/sorted-direction", key, "expected (prefix, consumer, direction...)")
+			continue
+		}
+		consume := params[1]
+		dir := params[2]
 		// The keys reported to the consumer are sorted with the caller's direction: a
 		// utils.SortSlice(_, <direction parameter>...) call lies on every path to the loop that
 		// invokes the consumer (in the function itself or in an expanded helper), and the loop
@@ -600,9 +629,19 @@ func checkIterationOrder(r *Reporter, p *Prog) {
 		fo := newFuncCFG(p, info, fd.Body, key)
 		var loop ast.Stmt
 		var theLoop *loopInfo
+		isConsumeAt := func(c *ast.CallExpr, g *FuncCFG) bool {
+			if objOfIdent(info, c.Fun) == consume {
+				return true
+			}
+			if _, isId := ast.Unparen(c.Fun).(*ast.Ident); !isId {
+				return false
+			}
+			cpt, okp := g.PointOf(c)
+			return okp && g.IsVar(c.Fun, cpt, consume)
+		}
 		consumeCalls := fo.Find(func(n ast.Node) bool {
 			c, ok := n.(*ast.CallExpr)
-			return ok && objOfIdent(info, c.Fun) == consume
+			return ok && isConsumeAt(c, fo)
 		})
 		for _, l := range fo.Loops() {
 			l := l
@@ -627,7 +666,7 @@ func checkIterationOrder(r *Reporter, p *Prog) {
 				return false
 			}
 			re, _ := fo.Resolve(c.Args[1], cpt)
-			return objOfIdent(info, re) == dir
+			return objOfIdent(info, re) == dir || fo.IsVar(c.Args[1], cpt, dir)
 		}
 		sorts := fo.Find(isSortWithDir)
 		okSort := len(sorts) > 0
@@ -668,7 +707,7 @@ func checkIterationOrder(r *Reporter, p *Prog) {
 		f := newFuncCFG(p, info, fd.Body, key)
 		isConsumeCall := func(n ast.Node) bool {
 			c, ok := n.(*ast.CallExpr)
-			return ok && objOfIdent(info, c.Fun) == consume
+			return ok && isConsumeAt(c, f)
 		}
 		_, falseE := f.CondEdges(func(e ast.Expr) bool { return isConsumeCall(e) })
 		if len(falseE) == 0 {
@@ -1124,4 +1163,79 @@ func visitorsCopy(p *Prog, info *types.Info, pkg string, fd *ast.FuncDecl, param
 		}
 	}
 	return "", n > 0
+}
+
+// iterationEndToEnd: see checkRealmDiscipline.
+func iterationEndToEnd(p *Prog, mp, name string) bool {
+	info := p.Pkg(mp).TypesInfo
+	fd := p.FuncDecl(mp, "mapDB", name)
+	if fd == nil || fd.Body == nil {
+		return false
+	}
+	params := paramObjs(info, fd) // prefix, consumer, direction
+	if len(params) != 3 {
+		return false
+	}
+	ownRealm := recvIdentOf(fd).Name + ".realm"
+	f := newFuncCFG(p, info, fd.Body, funcKey(mp, fd)+"/end-to-end")
+	isParam := func(e ast.Expr, pt Point, i int) bool {
+		if f.IsVar(e, pt, params[i]) {
+			return true
+		}
+		re, _ := f.Resolve(e, pt)
+		if c, ok := ast.Unparen(re).(*ast.CallExpr); ok && len(c.Args) == 1 {
+			if tv, ok := info.Types[c.Fun]; ok && tv.IsType() {
+				re = c.Args[0]
+			}
+		}
+		return objOfIdent(info, re) == params[i]
+	}
+	nFilter, nConsume, nSort := 0, 0, 0
+	okFilter, okConsume, okSort := true, true, true
+	for _, b := range f.G.Blocks {
+		if !b.Live {
+			continue
+		}
+		for i, nd := range b.Nodes {
+			pt := Point{b, i}
+			inspectNoLit(nd, func(m ast.Node) bool {
+				x, ok := m.(*ast.CallExpr)
+				if !ok {
+					return true
+				}
+				switch {
+				case qualifiedCallee(info, x) == "strings.HasPrefix" && len(x.Args) == 2:
+					nFilter++
+					re, rpt := f.Resolve(x.Args[1], pt)
+					c, isCall := ast.Unparen(re).(*ast.CallExpr)
+					if !isCall || !strings.HasSuffix(exprKey(c.Fun), "ConcatBytesToString") || len(c.Args) != 2 || f.KeyAt(c.Args[0], rpt) != ownRealm || !isParam(c.Args[1], rpt, 0) {
+						okFilter = false
+					}
+				case (objOfIdent(info, x.Fun) == params[1] || f.IsVar(x.Fun, pt, params[1])) && len(x.Args) >= 1:
+					nConsume++
+					ka, kpt := f.Resolve(x.Args[0], pt)
+					good := false
+					if sl, ok := ast.Unparen(ka).(*ast.SliceExpr); ok && sl.High == nil && sl.Low != nil {
+						lo, lpt := f.Resolve(sl.Low, kpt)
+						if lc, ok := ast.Unparen(lo).(*ast.CallExpr); ok && exprKey(lc.Fun) == "len" && len(lc.Args) == 1 && f.KeyAt(lc.Args[0], lpt) == ownRealm {
+							good = true
+						}
+					}
+					if !good {
+						okConsume = false
+					}
+				case strings.HasSuffix(exprKey(x.Fun), "SortSlice") && len(x.Args) == 2 && x.Ellipsis.IsValid():
+					nSort++
+					if !isParam(x.Args[1], pt, 2) {
+						okSort = false
+					}
+				}
+				return true
+			})
+		}
+	}
+	if os.Getenv("HC_DEBUG") != "" {
+		fmt.Fprintf(os.Stderr, "e2e %s: filter %d/%v consume %d/%v sort %d/%v\n", name, nFilter, okFilter, nConsume, okConsume, nSort, okSort)
+	}
+	return nFilter >= 1 && nConsume >= 1 && nSort >= 1 && okFilter && okConsume && okSort
 }
